@@ -55,7 +55,8 @@ def build(run):
             mono = xr.ge(y, y2) if cls == "Not" else xr.le(y, y2)
             run.add(Obl(f"{fq}/ensures.monotone", pre2 + [xr.le(x, x2)] + ax.axioms(), mono, fn=fq, meta=rp("monotone", ["x", "x2"])))
         except Unsupported as ex_:
-            run.add(undecided(f"{fq}/subset", f"outside the verified subset: {ex_}", fn=fq))
+            run.add(undecided(f"{fq}/subset", f"outside the verified subset: {ex_}", fn=fq,
+                              meta={"replay": {"module": "contracts.hedges", "func": "replay", "kwargs": {"clause": "all", "hedge": cls}, "vars": {}}}))
     # relations between hedges, over the code's own symbolic results; inner results are used through `ensures.range`
     try:
         ax = xr.Ax(); A = xr.SymAlg(ax); x = xr.finsym("x"); pre = [C.unit(A, x)]
